@@ -477,19 +477,19 @@ func witnesses(out *hx.Out) {
 	s = &Snap{Nodes: []*Node{mk(1, 1, 1, 2, vol(1, 0, 10)), mk(1, 1, 2, 1, vol(3, 0, 10))}}
 	t, nt, _ = runEvac(s, 1, true)
 	out.Add(mkCase(s, t), "w1|"+s.canon(), nt, "witness")
-	// k=2: two repairs sent to the one server with a single free slot
+	// repaired (was finding 2), now code 0: two volumes to repair, one free slot on n2
 	s = &Snap{Nodes: []*Node{mk(1, 1, 1, 4, vol(1, 1, 10), vol(2, 1, 10)), mk(1, 1, 2, 3, vol(3, 0, 10), vol(4, 0, 10))}}
 	t, nt, _ = runFix(s, 0)
 	out.Add(mkCase(s, t), "w2|"+s.canon(), nt, "witness")
-	// k=3: -retry 1 repeats the successful repair
+	// repaired (was finding 3), now code 0: -retry 1 used to repeat the successful repair
 	s = &Snap{Nodes: []*Node{mk(1, 1, 1, 4, vol(1, 1, 10)), mk(1, 1, 2, 4), mk(1, 1, 3, 4)}}
 	t, nt, _ = runFix(s, 1)
 	out.Add(mkCase(s, t), "w3|"+s.canon(), nt, "witness")
-	// k=4: a 000 volume with a writable copy on n1 and a read-only copy on n2 is moved onto n2
+	// repaired (was finding 4), now code 0: a 000 volume with a writable copy on n1 and a read-only copy on n2
 	s = &Snap{Nodes: []*Node{mk(1, 1, 1, 4, vol(1, 0, 10), vol(2, 0, 10)), mk(1, 1, 2, 4, ro(vol(1, 0, 10)))}}
 	t, nt, _ = runBalance(s, []string{"ALL_COLLECTIONS"})
 	out.Add(mkCase(s, t), "w4|"+s.canon(), nt, "witness")
-	// k=5: replication 120 laid out 3 racks + 1; evacuating n3 makes it 2 + 2
+	// k=2: replication 120 laid out 3 racks + 1; evacuating n3 makes it 2 + 2
 	s = &Snap{Nodes: []*Node{mk(1, 1, 1, 4, vol(1, 120, 10)), mk(1, 2, 2, 4, vol(1, 120, 10)), mk(1, 3, 3, 4, vol(1, 120, 10)),
 		mk(2, 1, 4, 4, vol(1, 120, 10)), mk(2, 2, 5, 4)}}
 	t, nt, _ = runEvac(s, 3, true)
@@ -498,7 +498,7 @@ func witnesses(out *hx.Out) {
 
 func main() {
 	out := hx.Flags("C15", 300)
-	out.Rule = "random snapshots (2-3 DCs x 1-3 racks x 1-3 servers, 1-2 disk types, 2-8 slots per disk, 3-10 volumes, replication in {000,001,010,100,011,110,200,002,120}, replica sets valid/under/over/misplaced, per-replica read-only/size, 1-2 collections) fed to the real balance (ALL/EACH/one collection), evacuate (random server, skipNonMoveable on/off) and fix.replication (-retry 0..2) planners in dry-run; plus direct isGoodMove/satisfyReplicaPlacement/NewReplicaPlacementFromByte calls over a 27-server universe; the first 6 cases are the witnesses of the known findings; non-trivial = the plan has at least one step (function cases: result true); distinct = canonical snapshot + run parameters"
+	out.Rule = "random snapshots (2-3 DCs x 1-3 racks x 1-3 servers, 1-2 disk types, 2-8 slots per disk, 3-10 volumes, replication in {000,001,010,100,011,110,200,002,120}, replica sets valid/under/over/misplaced, per-replica read-only/size, 1-2 collections) fed to the real balance (ALL/EACH/one collection), evacuate (random server, skipNonMoveable on/off) and fix.replication (-retry 0..2) planners in dry-run; plus direct isGoodMove/satisfyReplicaPlacement/NewReplicaPlacementFromByte calls over a 27-server universe; the first 6 cases are the witnesses of the three known findings (cases 0, 1, 5) and of the three repaired defects (cases 2, 3, 4, now ok); non-trivial = the plan has at least one step (function cases: result true); distinct = canonical snapshot + run parameters"
 	witnesses(out)
 	// consecutive seeds of hx.NewRng give shifted copies of one stream: mix the seed first
 	root := hx.NewRng(hx.NewRng(out.Seed).Next())
